@@ -1,67 +1,67 @@
 // replay for property C13, harness h13a_exact_r16_n27 (package boa_engine, flags --no-default-features)
 // failing checks: verif: parseInt digits are the correctly rounded exact integer
-// native reproduction: [{"fn": "kani_concrete_playback_h13a_exact_r16_n27_8859826863781303128", "dev_fails": true, "release_fails": null, "panic": "panicked at core/engine/src/builtins/number/verif_kani_globals_c13a.rs:300:1:\nverif: parseInt digits are the correctly rounded exact integer"}]
+// native reproduction: [{"fn": "kani_concrete_playback_h13a_exact_r16_n27_6638677223770162", "dev_fails": true, "release_fails": null, "panic": "panicked at core/engine/src/builtins/number/verif_kani_globals_c13a.rs:300:1:\nverif: parseInt digits are the correctly rounded exact integer"}]
 // @replay package=boa_engine harness=h13a_exact_r16_n27 tag=c13a flags=--no-default-features
 /// Test generated for harness `builtins::number::globals::verif_kani_globals_c13a::h13a_exact_r16_n27` 
 ///
 /// Check for `assertion`: ""verif: parseInt digits are the correctly rounded exact integer""
 #[test]
-fn kani_concrete_playback_h13a_exact_r16_n27_8859826863781303128() {
+fn kani_concrete_playback_h13a_exact_r16_n27_6638677223770162() {
     let concrete_vals: Vec<Vec<u8>> = vec![
         // 48
         vec![48],
-        // 48
-        vec![48],
         // 56
         vec![56],
-        // 52
-        vec![52],
-        // 52
-        vec![52],
-        // 48
-        vec![48],
-        // 48
-        vec![48],
-        // 48
-        vec![48],
-        // 48
-        vec![48],
-        // 48
-        vec![48],
-        // 48
-        vec![48],
-        // 48
-        vec![48],
-        // 70
-        vec![70],
-        // 67
-        vec![67],
-        // 48
-        vec![48],
-        // 52
-        vec![52],
-        // 55
-        vec![55],
-        // 67
-        vec![67],
-        // 67
-        vec![67],
-        // 56
-        vec![56],
-        // 102
-        vec![102],
-        // 65
-        vec![65],
-        // 65
-        vec![65],
         // 49
         vec![49],
-        // 55
-        vec![55],
+        // 49
+        vec![49],
         // 48
         vec![48],
         // 48
         vec![48],
+        // 48
+        vec![48],
+        // 48
+        vec![48],
+        // 48
+        vec![48],
+        // 48
+        vec![48],
+        // 67
+        vec![67],
+        // 49
+        vec![49],
+        // 48
+        vec![48],
+        // 52
+        vec![52],
+        // 52
+        vec![52],
+        // 48
+        vec![48],
+        // 48
+        vec![48],
+        // 48
+        vec![48],
+        // 56
+        vec![56],
+        // 48
+        vec![48],
+        // 48
+        vec![48],
+        // 48
+        vec![48],
+        // 50
+        vec![50],
+        // 56
+        vec![56],
+        // 48
+        vec![48],
+        // 49
+        vec![49],
+        // 50
+        vec![50],
     ];
     kani::concrete_playback_run(concrete_vals, h13a_exact_r16_n27);
 }
